@@ -47,7 +47,8 @@ def random_gaussian_map(A, k, random_state):
     # TODO: adapt for complex-valued data
 
     if isinstance(A, DaskArray):
-        Omega = dask.array.random.standard_normal(
+        seed = random_state.randint(np.iinfo(np.int32).max)
+        Omega = dask.array.random.default_rng(seed).standard_normal(
             size=(A.shape[1], k), chunks=(A.chunks[1], -1)
         )
         return Omega.astype(A.dtype)
